@@ -553,10 +553,34 @@ def run(rep, ctx):
         b1.check(corners == ["lx*ly", "lx*uy", "ux*ly", "ux*uy"] and any(c.get("callee", "").endswith("min_element") for c in f.walk() if c["k"] == "CallExpr")
                  and any(c.get("callee", "").endswith("max_element") for c in f.walk() if c["k"] == "CallExpr"), "product-corners", short_loc(f.loc),
                  "x*y for x != y: min and max over the four corner products", str(corners))
-        sq = [n for n in f.walk() if n["k"] == "ConditionalOperator"]
-        oks = len(sq) == 1 and norm(render(kids(sq[0])[0])) == "lx<=0&&ux>=0" and cv(kids(sq[0])[1]) == 0 and \
-            norm(render(kids(sq[0])[2])) == "min(lx*lx,ux*ux)"
-        mx = [c for c in f.walk() if c["k"] == "CallExpr" and c.get("callee", "").endswith("::max") and norm(render(c)).endswith("max(lx*lx,ux*ux)")]
+        # the square case, in ProductBounds itself or in a helper it calls for x == y (arguments traced back to lb(x), ub(x))
+        def square_form(g, amap):
+            sq_ = [n for n in g.walk() if n["k"] == "ConditionalOperator"]
+            if len(sq_) != 1:
+                return False
+            m_ = re.match(r"^([A-Za-z_]\w*)<=0&&([A-Za-z_]\w*)>=0$", norm(render(kids(sq_[0])[0])))
+            if not m_:
+                return False
+            A, B = m_.group(1), m_.group(2)
+            if cv(kids(sq_[0])[1]) != 0 or norm(render(kids(sq_[0])[2])) != "min(%s*%s,%s*%s)" % (A, A, B, B):
+                return False
+            mx_ = [c for c in g.walk() if c["k"] == "CallExpr" and c.get("callee", "").endswith("::max") and norm(render(c)).endswith("max(%s*%s,%s*%s)" % (A, A, B, B))]
+            return len(mx_) == 1 and amap(A) == "lb" and amap(B) == "ub"
+
+        def local_kind(name):
+            vd = [v for v in f.walk() if v["k"] == "VarDecl" and v.get("name") == name and kids(v)]
+            t_ = norm(render(kids(vd[0])[0])) if vd else ""
+            return "lb" if t_.endswith(".lb(x)") else "ub" if t_.endswith(".ub(x)") else None
+        oks = square_form(f, local_kind)
+        mx = [1]
+        if not oks:
+            for c_ in f.walk():
+                g_ = getattr(F, "_by_id", {}).get(c_.get("calleeId")) if c_["k"] in ("CallExpr", "CXXMemberCallExpr") else None
+                if g_ is not None and g_ is not f and g_.cfg is not None and len(call_args(c_)) == len(g_.params):
+                    amap_ = {p_["name"]: local_kind(norm(render(a_))) for p_, a_ in zip(g_.params, call_args(c_))}
+                    same = any(t_ in ("x==y", "y==x") and pol for t_, pol in norm_facts(f, c_)) or any(t_ in ("x!=y", "y!=x") and not pol for t_, pol in norm_facts(f, c_))
+                    if same and square_form(g_, lambda nm: amap_.get(nm)):
+                        oks = True
         b1.check(oks and len(mx) == 1, "square-bounds", short_loc(f.loc), "x*x: lower bound 0 iff the domain contains 0, else min(lx^2, ux^2); upper max(lx^2, ux^2)")
     for nm, init, op, acc in (("lb_array", "Inf", "min", "lb"), ("lb_max_array", "MinusInf", "max", "lb"), ("ub_array", "MinusInf", "max", "ub"), ("ub_min_array", "Inf", "min", "ub")):
         fs = [f for f in funcs if f.qn == "mp::FlatModel::" + nm]
